@@ -133,3 +133,33 @@ package kernel
 //@       storage.SLink(SV(chain), chain.ChainId, x) == old(ExtNumber(chain, NewExt(result2, references, cache.References.External))) &&
 //@       storage.SLink(SV(chain), chain.ChainId, x) >= old(storage.SLink(SV(chain), chain.ChainId, x))
 //@   ensures [mirror-kept] result1 != nil ==> MirrorOK(chain)
+
+//@ -- the stored head record of this chain is the in-memory cache round (established by startNewRoundAndPersist/[durable-head], kept by updateEmptyHeadRoundAndPersist)
+//@ spec HeadOK(chain *Chain, cache *CacheRound) bool = storage.SHasRound(SV(chain), chain.ChainId) && storage.SRoundNodeId(SV(chain), chain.ChainId) == chain.ChainId &&
+//@     storage.SRoundNumber(SV(chain), chain.ChainId) == cache.Number && storage.SRoundSelf(SV(chain), chain.ChainId) == cache.References.Self
+
+//@ func (chain *Chain) updateEmptyHeadRoundAndPersist
+//@   property C20
+//@   requires ChainOK(chain) && final != nil && cache != nil && cache.References != nil && references != nil && HistoryOK(chain)
+//@   requires [mirror] MirrorOK(chain)
+//@   requires [own] chain.ChainId == cache.NodeId && chain.ChainId == final.NodeId && final.Number + 1 == cache.Number -- assignNewGraphRound panics otherwise; callers pass chain.State.FinalRound/CacheRound
+//@   requires [history] LastHistory(chain) == final.Number || U64(LastHistory(chain) + 1) == final.Number
+//@   requires [head] HeadOK(chain, cache)
+//@   maypanic -- `panic(err)` when the durable write fails: the node aborts. The other explicit panic (the record read back does not carry its key) is shown unreachable by the hint below.
+//@   hint after (crypto.Hash).HasValue external.Hash.HasValue() && external.Hash == references.External
+//@   modifies ghost storever, cache.References, chain.State.RoundLinks[..], chain.node.chains.m[..],
+//@       chain.State.CacheRound, chain.State.FinalRound, chain.State.RoundHistory, chain.State.RoundHistory[..cap], chain.node.GraphTimestamp, chain.FinalIndex, chain.FinalCount
+//@   ensures [rejected] err != nil ==> SV(chain) == old(SV(chain)) && cache.References == old(cache.References) &&
+//@       chain.State.CacheRound == old(chain.State.CacheRound) && chain.State.FinalRound == old(chain.State.FinalRound) &&
+//@       (forall id crypto.Hash :: {has(chain.State.RoundLinks, id)} LinkAt(chain, id) == old(LinkAt(chain, id)))
+//@   ensures [accepted] err == nil ==> len(cache.Snapshots) == 0 && references.Self == old(cache.References.Self) && cache.References != nil &&
+//@       cache.References.Self == references.Self && cache.References.External == references.External
+//@   ensures [known] err == nil ==> old(storage.SHasRound(SV(chain), references.External)) && old(ExtNode(chain, references.External)) != chain.ChainId
+//@   ensures [assigned] err == nil ==> chain.State.CacheRound == cache && chain.State.FinalRound == final
+//@   ensures [mem-link] err == nil ==> LinkAt(chain, old(ExtNode(chain, references.External))) == old(ExtNumber(chain, references.External)) &&
+//@       old(ExtNumber(chain, references.External)) >= old(LinkAt(chain, ExtNode(chain, references.External)))
+//@   ensures [durable-link] err == nil ==> let x == old(ExtNode(chain, references.External)) in
+//@       storage.SLink(SV(chain), chain.ChainId, x) == old(ExtNumber(chain, references.External)) &&
+//@       storage.SLink(SV(chain), chain.ChainId, x) >= old(storage.SLink(SV(chain), chain.ChainId, x))
+//@   ensures [durable-head] err == nil ==> HeadOK(chain, cache) && storage.SRoundExternal(SV(chain), chain.ChainId) == references.External
+//@   ensures [mirror-kept] err == nil ==> MirrorOK(chain)
